@@ -212,6 +212,10 @@ CORPUS_QUERIES = [
     'a:(b:x AND c:"y z"~2)', 'a.b.c:x', 'n:(o:(h:x))', 'n.o.h:x~2', 'a:x^2', '(a b)^3', 'a:* AND b:?x AND c:\\*y',
     'a:(b OR c AND d)', 'x AND (y OR z) AND NOT w', 'a:"p q"~3^2', 'a:foo~', 'n.o:[a TO b] OR s:x',
     'author.book.format.type:pdf AND author.name:x', 'author:(name:x AND book:(title:y))', 'author.book:x',
+    # negations of groups: the complement of an implicit / explicit operation, under every default operator
+    'NOT (a b)', '-(a b) c', 'NOT (a OR b)', 'NOT (a AND b)', 'c NOT (a b)', 'f:(NOT (a b))', '-(a b c)',
+    'NOT (a b) AND NOT (c OR d)', 'a:(NOT b:x)', 'a:(-b:x)', 'a:(NOT (b:x c:y))', 'author:(NOT name:x)',
+    'author:(book:(NOT title:y))', 'NOT author.name:x', 'author:(name:x AND NOT name:y)',
 ]
 
 
@@ -507,6 +511,15 @@ def builder_sessions(r, T, n_sessions, odd_share=0.45):
     corpus = corpus_trees(T)
     for i, cfg in enumerate(FIXED_CONFIGS):
         sessions.append((cfg, corpus[i::len(FIXED_CONFIGS)] + corpus[:3], "corpus"))
+    # the operator-sensitive part of the corpus under BOTH default operators, with and without nested fields
+    from luqum.parser import parser as _parser
+    sensitive = [q for q in CORPUS_QUERIES if "NOT" in q or "-" in q or " " in q]
+    nested_cfg = {"nested_fields": {"author": {"name": None, "book": {"format": ["type"], "title": None}},
+                                    "a": ["b", "c"]}}
+    for base in ({}, nested_cfg):
+        for op in ("should", "must"):
+            cfg = dict(base, default_operator=op)
+            sessions.append((cfg, [_parser.parse(q) for q in sensitive], "corpus-operators"))
     for _ in range(n_sessions):
         cfg = gen_config(r)
         trees = []
